@@ -67,7 +67,14 @@ def run(R):
                  "amounts below 2^63 (no 256/315-bit overflow panics); slash fractions in [0,1]; commission in [0,1]",
                  "the minted inflation and InflationPossible are inputs of the allocation model (observed from the real run); the inflation formula itself belongs to C13",
                  "a failing message / block leaves no trace (baseapp cache discarded): the harness runs every step in a CacheContext"]
-    R.gen("gen_c10", "C10Cfg.v")
+    if not R.gen("gen_c10", "C10Cfg.v"):
+        # the tree is outside the translator's fragment (already recorded as a broken obligation): continue with the
+        # last variant known for the tree so that the spec checker can still search for a concrete failing input
+        import vlib
+        with open(os.path.join(vlib.COQ, "Gen", "C10Cfg.v"), "w") as f:
+            f.write("(* FALLBACK written by checks/c10.py: gen_c10 rejected the tree *)\n"
+                    "From Sekai Require Import Base.Prelude Model.Pools.\n"
+                    "Definition tree_variant : variant := mkVariant true 1 false false 0 false.\n")
     R.coq_files(FILES)
     R.coq_property()
     R.audit()
